@@ -1,11 +1,182 @@
-import TraitsVerif.Model.Assign
+/-
+C01 — assigned values always lie in the trait's declared domain.
+
+Only the property theorems (and non-vacuity examples) live here; lemmas are in
+Lemmas/ValSound.lean (soundness), ValSource.lean (exception provenance),
+ValAssign.lean (assignment histories).
+
+Model: `validate` = the CTrait's validator (Model/PyValidate.lean: compiled
+validator where the handler has a descriptor, Python method otherwise),
+`inDomain` / `Conv` / `mappedValue` = the documentation (Model/Domain.lean),
+`Assign.step` / `Assign.run` = setattr_trait reduced to validate → store →
+post_setattr (Model/Assign.lean).  Hypotheses on the environment (`EnvOK`) are
+facts about CPython / the adaptation registry / user functions.
+-/
+import TraitsVerif.Lemmas.ValSource
+import TraitsVerif.Lemmas.ValAssign
 import TraitsVerif.Generated.ValidateTables
 namespace TraitsVerif.Props.C01
-open TraitsVerif TraitsVerif.Py.Value TraitsVerif.Model.Val
+open TraitsVerif TraitsVerif.Py.Value TraitsVerif.Model.Val TraitsVerif.Model.Val.Assign
 
-/-- A rejected assignment leaves the state as it was. -/
-theorem C01_reject (E : Env) (cls : Assign.ClassDef) (st : Assign.State) (name : String) (v : Val)
-    (e : Exc) (h : (Assign.step E cls st name v).2 = some e) (hv : ∀ tt, Assign.traitOf cls name = some tt → validate E tt v ≠ .ok v → True) :
-    True := trivial
+/-! ## Accepted ⇒ in the declared domain, and the documented conversion -/
+
+/-- The property at full strength: whatever the trait's validator accepts lies
+in the declared domain and is the documented conversion of the assigned value.
+FALSE of the pinned tree for TraitCoerceType(float / complex) (finding F42), and
+for a Base* class whose Python validate is not clean (BaseCallable-like F40). -/
+def C01_sound_full : Prop :=
+  ∀ (E : Env), EnvOK E → ∀ (tt : TraitType) (v w : Val),
+    validate E tt v = .ok w → inDomain E tt w = true ∧ Conv E tt v w
+
+/-- Proved for every trait type of the model — Int … CBool, float and int Range
+with every bound / exclusivity combination (NaN included: it is in no bounded
+range), Enum, Map, Tuple, BaseTuple, Instance (all adapt modes), Type, This,
+Callable, Module, String (all four validator variants), PrefixList, PrefixMap,
+the legacy Trait*() handlers, Base* classes, and Either / Union / TraitCompound
+/ Tuple nestings of any depth — provided no TraitCoerceType(float | complex)
+occurs in it (`soundClean`). -/
+theorem C01_sound_partial (E : Env) (hE : EnvOK E) (tt : TraitType) (hc : tt.soundClean = true)
+    (v w : Val) (h : validate E tt v = .ok w) : inDomain E tt w = true ∧ Conv E tt v w :=
+  (soundP_all E hE tt).2.1 hc v w h
+
+/-- The Python validate methods are sound as well (they are what a Base* class
+validates with), where they are `pyClean`. -/
+theorem C01_sound_python (E : Env) (hE : EnvOK E) (tt : TraitType) (hc : tt.soundClean = true)
+    (hp : tt.pyClean = true) (v w : Val) (h : pyValidate E tt v = .ok w) :
+    inDomain E tt w = true ∧ Conv E tt v w :=
+  (soundP_all E hE tt).2.2 hc hp v w h
+
+/-- An environment for the examples: type constructors return their argument
+when it already is an exact instance and raise OverflowError otherwise. -/
+def E0 : Env :=
+  { cast := fun t v => if Val.exactTy t v then .ok v else .error .overflowError
+    fn := fun _ v => .ok v
+    adapt := fun _ _ => .ok none
+    selfCls := 0
+    rx := fun _ _ => false }
+
+theorem E0_ok : EnvOK E0 where
+  castIdem := by intro t v h; simp [E0, h]
+  castTyped := by
+    intro t v w h
+    simp only [E0] at h
+    split at h
+    · cases h; assumption
+    · cases h
+  adaptProvides := by intro v c r h; simp [E0] at h
+  fnRange := by intro f v w _; rfl
+
+example : (TraitType.either [.rangeF (some (.fin 0)) (some (.fin 8)) true false,
+    .tuple [.int, .union [.str, .noneTrait]]] true).soundClean = true := by decide
+example : validate E0 (.rangeF (some (.fin 0)) (some (.fin 8)) true false) (Val.ofInt 2)
+    = .ok (Val.ofFloat (.fin 8)) := by decide
+/-- NaN is rejected by every bounded float Range (the F2 repair, e60e19b). -/
+example : validate E0 (.rangeF (some (.fin 0)) none false false) (Val.ofFloat .nan) = .traitError := by decide
+
+/-- F42: Trait(float) stores the int 3. -/
+theorem C01_sound_fails_at_coerce :
+    validate E0 (.coerceH .float) (Val.ofInt 3) = .ok (Val.ofInt 3) ∧
+    inDomain E0 (.coerceH .float) (Val.ofInt 3) = false := by decide
+
+theorem C01_sound_full_is_false : ¬ C01_sound_full := by
+  intro h
+  have := (h E0 E0_ok (.coerceH .float) (Val.ofInt 3) (Val.ofInt 3) C01_sound_fails_at_coerce.1).1
+  rw [C01_sound_fails_at_coerce.2] at this
+  cases this
+
+/-! ## Rejection and other exceptions: no effect -/
+
+/-- A TraitError leaves the attribute and every other attribute exactly as they
+were (validation precedes every write in `setattr_trait`). -/
+theorem C01_reject (E : Env) (cls : ClassDef) (st : State) (name : String) (v : Val)
+    (h : (step E cls st name v).2 = some .traitError) : (step E cls st name v).1 = st := by
+  simp only [step] at h ⊢
+  cases ht : traitOf cls name with
+  | none => simp [ht] at h
+  | some tt =>
+    simp only [ht] at h ⊢
+    cases hv : validate E tt v with
+    | traitError => rfl
+    | raised e => rfl
+    | ok w =>
+      simp only [hv] at h
+      split at h
+      · split at h
+        · cases h
+        · split at h <;> cases h
+      · cases h
+
+/-- … and a validator that says TraitError makes the assignment raise TraitError. -/
+theorem C01_reject_iff (E : Env) (cls : ClassDef) (st : State) (name : String) (v : Val)
+    (tt : TraitType) (ht : traitOf cls name = some tt) (hv : validate E tt v = .traitError) :
+    step E cls st name v = (st, some .traitError) := by
+  simp [step, ht, hv]
+
+/-- Full strength: any other exception `e` that surfaces was raised by the
+value's own `__index__` / `__float__` / `__complex__` (or the int → float
+overflow inside them) or by an overflowing numeric conversion.  FALSE of the
+pinned tree: `==` of the value can raise through BaseEnum (F45), and an `Any`
+member of a compound raises TypeError (F48). -/
+def C01_passthrough_full : Prop :=
+  ∀ (E : Env) (cls : ClassDef) (st : State) (name : String) (v : Val) (tt : TraitType) (e : Exc),
+    traitOf cls name = some tt → (step E cls st name v).2 = some e → e ≠ .traitError →
+    (step E cls st name v).1 = st ∧
+    ((∃ x, index x = .error e) ∨ (∃ x, asDouble x = .error e) ∨ (∃ x, asComplex x = .error e) ∨
+     (∃ t x, E.cast t x = .error e))
+
+/-- Proved: every exception other than TraitError leaves the object untouched,
+and it was raised by one of the things the validators call out to (`Src`: the
+value's numeric protocol, a type constructor, adapt, a user validator, an `==`
+of the value) or is the TypeError of an `Any` member — nothing else in the
+validators can raise.  What is missing for the full statement are exactly the
+last three sources of `Src`. -/
+theorem C01_passthrough_partial (E : Env) (hE : EnvOK E) (cls : ClassDef) (hwf : ClassWF cls)
+    (st : State) (name : String) (v : Val) (tt : TraitType) (e : Exc)
+    (ht : traitOf cls name = some tt) (h : (step E cls st name v).2 = some e) (hne : e ≠ .traitError) :
+    (step E cls st name v).1 = st ∧ Src E e := by
+  obtain ⟨hv, hst⟩ := step_error E cls st name v tt e ht (hwf name tt ht) h
+  refine ⟨hst, ?_⟩
+  rcases hv with ⟨_, he⟩ | hv
+  · exact absurd he hne
+  · exact (srcP_all E hE.castIdem tt).2.1 v e hv
+
+/-- F45: BaseEnum lets the exception of `==` out. -/
+theorem C01_passthrough_fails_at_base_enum :
+    validate E0 (.noFast (.enum [Val.ofInt 1])) (.atom (.badEq 0)) = .raised .valueError := by decide
+
+/-! ## Histories: every readable value is in its domain -/
+
+/-- Over every history of assignments (attribute assignment, constructor
+keyword, trait_set all run `Assign.step`) on an object with any number of
+attributes, starting from the empty instance dict: whatever is stored under a
+declared name lies in that trait's declared domain. -/
+theorem C01_readable (E : Env) (hE : EnvOK E) (cls : ClassDef) (hc : ClassClean cls)
+    (hs : NoShadowClash cls) (ops : List (String × Val)) :
+    Readable E cls (run E cls [] ops) :=
+  readable_run E hE cls hc hs ops [] (by intro n tt w _ h; simp [lookup] at h)
+
+example : ClassClean [("x", TraitType.int), ("y", .map [Val.ofStr "yes"] [Val.ofInt 1])] := by
+  intro n tt h
+  simp only [traitOf, List.find?] at h
+  split at h <;> simp at h
+  · subst h; rfl
+  · split at h <;> simp at h
+    subst h; rfl
+
+/-- After every history of assignments to declared attributes, the shadow
+attribute of every mapped trait that has a value holds `map[value]`. -/
+theorem C01_mapped (E : Env) (cls : ClassDef) (hw : ClassWF cls) (hs : NoShadowClash cls)
+    (ops : List (String × Val)) (hd : ∀ op ∈ ops, (traitOf cls op.1).isSome = true) :
+    ShadowOK cls (run E cls [] ops) :=
+  shadow_run E cls hw hs ops hd [] (by intro n tt w _ _ h; simp [lookup] at h)
+
+example : run E0 [("y", TraitType.map [Val.ofStr "yes", Val.ofStr "no"] [Val.ofInt 1, Val.ofInt 0])] []
+    [("y", Val.ofStr "no"), ("y", Val.ofInt 5)] = [("y", Val.ofStr "no"), ("y_", Val.ofInt 0)] := by decide
+
+/-! ## The tie to the source tables -/
+
+/-- The comparisons of `in_float_range` the model transcribes (NaN-rejecting form). -/
+theorem C01_range_tests_modelled :
+    Generated.floatRangeTests = ["!>low", "!>=low", "!<high", "!<=high"] := by decide
 
 end TraitsVerif.Props.C01
